@@ -388,6 +388,9 @@ def check_traverse(ctx, tag, tree, parent, root, reached, depth, orders=("BFS", 
         good = all(isinstance(t, tuple) and len(t) == 2 for t in seq)
         if not ctx.check(good, sig + "shape", f"traverse('{order}') does not yield (node, parent) pairs: {seq[:5]!r}"):
             continue
+        ok2, seq2 = ctx.call(sig + "call", lambda: list(tree.traverse(order)))
+        if ok2:
+            ctx.check(seq2 == seq, sig + "repeatable", f"a second traverse('{order}') yields a different sequence: {seq2[:6]} vs {seq[:6]}")
         nodes = [t[0] for t in seq]
         cnt = Counter(nodes)
         dup = [v for v, c in cnt.items() if c > 1]
@@ -760,11 +763,11 @@ def self_test():
 
 
 SUBCHECKS = [
-    SubCheck("edge_tree", edge_tree_case(), fn_edge_tree, quick=420, thorough=2500),
-    SubCheck("edge_mst", mst_case(), fn_mst, quick=420, thorough=2500),
-    SubCheck("face_tree", face_tree_case(), fn_face_tree, quick=320, thorough=2000),
-    SubCheck("cell_tree", cell_tree_case(), fn_cell_tree, quick=240, thorough=1500),
-    SubCheck("forests", forest_case(), fn_forest, quick=320, thorough=2000),
+    SubCheck("edge_tree", edge_tree_case(), fn_edge_tree, quick=800, thorough=2500),
+    SubCheck("edge_mst", mst_case(), fn_mst, quick=800, thorough=2500),
+    SubCheck("face_tree", face_tree_case(), fn_face_tree, quick=600, thorough=2000),
+    SubCheck("cell_tree", cell_tree_case(), fn_cell_tree, quick=400, thorough=1500),
+    SubCheck("forests", forest_case(), fn_forest, quick=600, thorough=2000),
 ]
 
 MATCHERS = {}
